@@ -25,6 +25,8 @@ func decConfigs(tier string) []DecConfig {
 	}
 	// Init on a DecoderBuffer that already owns a larger slice raises BufferSize lazily
 	out = append(out, DecConfig{W: 2, B: 3, PreCap: 8}, DecConfig{W: 3, B: 4, PreCap: 5})
+	// one geometry beyond a kilobyte with hardly any slack (decisions that depend on len>>10, 1 KiB thresholds ...)
+	out = append(out, DecConfig{W: 1100, B: 1102})
 	// every other small (WindowSize, BufferSize) pair that Init ACCEPTS on the tree under test (on the pinned
 	// tree there is none: WindowSize < BufferSize is required; a relaxed Verify brings its configurations in)
 	have := map[[2]int]bool{}
@@ -62,6 +64,12 @@ func decShards(prop string, props map[string]bool, levels []int) func(tier strin
 			for _, c := range decConfigs(tier) {
 				c, level := c, level
 				depth, maxBytes, cap := decDepth(tier, level)
+				if c.B > 64 {
+					if level == 0 {
+						continue // the large geometry is explored at Decoder level only
+					}
+					depth, maxBytes = 3, 6*c.B
+				}
 				if tier != "thorough" && level == 1 && (c.B >= 5 || (c.B == 0 && c.W >= 3)) {
 					depth-- // the Decoder-level state space of the larger buffers at full depth dominates the quick tier
 				}
